@@ -352,7 +352,10 @@ impl<F: Write + Seek> MiniAllocator<F> {
         let mut mini_stream_len = self.directory.root_dir_entry().stream_len;
         debug_assert_eq!(mini_stream_len % consts::MINI_SECTOR_LEN as u64, 0);
         while self.minifat.last() == Some(&consts::FREE_SECTOR) {
-            mini_stream_len -= consts::MINI_SECTOR_LEN as u64;
+            // After an earlier error the MiniFAT can be longer than the mini
+            // stream, so don't let the length go below zero.
+            mini_stream_len = mini_stream_len
+                .saturating_sub(consts::MINI_SECTOR_LEN as u64);
             self.minifat.pop();
             // TODO: Truncate MiniFAT if last MiniFAT sector is now all free.
         }
